@@ -60,6 +60,8 @@ type fnSpec struct {
 	selects      map[int]string    // select statement number (source order) -> the oracle that decides it ("§name@var,…")
 	chanSends    map[string]string // channel -> constructor of Gen.Eff recorded when a value is sent on it in a select
 	oneofView    string            // the oneof table to read literals of oneof members with (where a Go wrapper type is listed in more than one)
+	assertPtrFields map[string]string // "x.(*T)" -> pointer field of x's representation holding x's value when its dynamic type is *T
+	fatalNil     bool              // the function returns a pointer and reports by t.Fatalf: failing the test is returning none (the caller, a tbFatal function, stops there)
 	inlineClosures bool            // local procedures (function literals without results or returns, bound to a name) are expanded where they are called (see expandClosures)
 	extConsts    map[string]string // constants of package constants the function names -> their value (checked against constants/const.go)
 }
@@ -689,6 +691,40 @@ var ribRefCountSpecs = []fnSpec{
 	},
 }
 
+
+// chk's error helpers. An error value is represented by what the helpers look at: nil, or a value
+// that either is a *client.ClientErr (AsClientErr) or is not. (A *client.ClientErr that is itself a
+// nil pointer is outside the representation: the Go code would dereference it.)
+var chkErrSpecs = []fnSpec{
+	{
+		file: "chk/chk.go", goName: "clientError", callAs: "clientError", leanName: "clientError", fatalNil: true,
+		params: []param{
+			{goName: "t", goType: "testing.TB", lean: "t", kd: kStr, skip: true},
+			{goName: "err", goType: "error", lean: "err", kd: kPtr("ErrView")},
+		},
+		goRets: "*client.ClientErr", rets: []string{"ptr:ClientErrG"},
+		assertPtrFields: map[string]string{"err.(*client.ClientErr)": "AsClientErr"},
+	},
+	{
+		file: "chk/chk.go", goName: "HasNSendErrors", callAs: "HasNSendErrors§", leanName: "hasNSendErrors", tbFatal: true,
+		params: []param{
+			{goName: "t", goType: "testing.TB", lean: "t", kd: kStr, skip: true},
+			{goName: "err", goType: "error", lean: "err", kd: kPtr("ErrView")},
+			{goName: "count", goType: "int", lean: "count", kd: kNat},
+		},
+		goRets: "", rets: []string{"bool"},
+	},
+	{
+		file: "chk/chk.go", goName: "HasNRecvErrors", callAs: "HasNRecvErrors§", leanName: "hasNRecvErrors", tbFatal: true,
+		params: []param{
+			{goName: "t", goType: "testing.TB", lean: "t", kd: kStr, skip: true},
+			{goName: "err", goType: "error", lean: "err", kd: kPtr("ErrView")},
+			{goName: "count", goType: "int", lean: "count", kd: kNat},
+		},
+		goRets: "", rets: []string{"bool"},
+	},
+}
+
 var ribSpecs = []fnSpec{
 	{
 		file: "rib/rib.go", goName: "getPending", recvType: "*RIB", callAs: "r.getPending", leanName: "getPending",
@@ -1115,4 +1151,5 @@ func init() {
 	specs = append(specs, ribFlushSpec)
 	specs = append(specs, ribGetRIBSpec)
 	specs = append(specs, ribRefCountSpecs...)
+	specs = append(specs, chkErrSpecs...)
 }
